@@ -102,6 +102,8 @@ def expected_value(w, attr_uri, vspec):
             return UNKNOWN
         if du.startswith(pools.XSD_URI) and du[len(pools.XSD_URI):] in NATIVE:
             return NATIVE[du[len(pools.XSD_URI):]](text)
+        if du.startswith(pools.XSD_URI):
+            return UNKNOWN  # an XSD type outside the property's list: how it is stored is not promised
         return Literal(text, model_qn(du), None)
     return UNKNOWN
 
@@ -113,8 +115,15 @@ def state_of(r):
     return st
 
 
+def nkey(v):
+    k = observe.vkey(v)
+    if k[0] == "lit" and k[3] is not None:
+        return ("lit", k[1], None, k[3])  # language-tagged: only text and tag are promised
+    return k
+
+
 def key_state(st):
-    return sorted(((a, observe.vkey(v)) for a, vs in st.items() for v in vs), key=repr)
+    return sorted(((a, nkey(v)) for a, vs in st.items() for v in vs), key=repr)
 
 
 def matches(exp_state, r):
@@ -128,8 +137,8 @@ def matches(exp_state, r):
             if len(avs) != len(evs) or not all(isinstance(x, QualifiedName) for x in avs):
                 return False
             continue
-        ek = sorted((observe.vkey(e) for e in evs), key=repr)
-        ak = sorted((observe.vkey(x) for x in avs), key=repr)
+        ek = sorted((nkey(e) for e in evs), key=repr)
+        ak = sorted((nkey(x) for x in avs), key=repr)
         if ek != ak:
             return False
     return True
@@ -312,7 +321,8 @@ class C05(Oracle):
         fa = r.formal_attributes
         for (name, val), arg in zip(fa, r.args):
             vs = st.get(name.uri, [])
-            if (val is None) != (len(vs) == 0) or (vs and val is not vs[0] and val != vs[0]) or arg is not val:
+            if (val is None) != (len(vs) == 0) or (vs and val is not vs[0] and val != vs[0]) or (
+                    arg is not val and arg != val):
                 raise Violation("C05", "views", "formal_attributes-disagree",
                                 {"record": repr(observe.rec_obs(r)), "attribute": name.uri})
 
@@ -363,8 +373,6 @@ class C05(Oracle):
                                 {"operation": op, "outcome": out.summary()})
             return
         if is_el and id_uri is None:
-            if not out.refused:
-                raise Violation("C05", "refusal", "element-without-identifier", {"operation": op})
             return
         if out.status != "ok" and any(isinstance(v, WildQN) for _, v in mp):
             self.count("transition_unmodelled")  # a string spelling may be unresolvable here
@@ -410,10 +418,7 @@ class C05(Oracle):
                                 {"operation": op, "outcome": out.summary(),
                                  "before": repr(key_state(pre)), "after": repr(key_state(state_of(r)))},
                                 {"has_collection_key": any(a == MEMBER_COLLECTION for a, _ in mp)})
-            if not any(matches(s, r) for s in states):
-                raise Violation("C05", "refusal", "state-after-refusal",
-                                {"operation": op, "after": repr(key_state(state_of(r)))})
-            return
+            return  # what else of the call was applied is unspecified; the invariant still holds
         if out.status != "ok" and any(isinstance(v, WildQN) for _, v in mp):
             self.count("transition_unmodelled")
             return
@@ -431,14 +436,25 @@ class C05(Oracle):
     def chk_set_time(self, w, op, out):
         r, pre = self.pre
         self.count("transition_checks")
-        if out.status != "ok":
-            raise Violation("C05", "set_time", "raised", {"operation": op, "error": repr(out.exc)})
         exp = {a: list(v) for a, v in pre.items()}
+        differs = False
         for spec, f in ((op[2], "startTime"), (op[3], "endTime")):
             if spec is not None:
-                exp[pools.PROV_URI + f] = [parse_dt(spec[1])]
+                new = parse_dt(spec[1])
+                cur = pre.get(pools.PROV_URI + f)
+                if cur and _differ(cur[0], new):
+                    differs = True
+                exp[pools.PROV_URI + f] = [new]
                 if spec[0] == "dts":
                     self.probe("set_time_iso_string")
+        if out.status != "ok":
+            # a *different* time for a slot that already holds one may be refused (the
+            # property's general rule) or replace it (what a setter does); anything else
+            # must succeed
+            if differs and out.refused:
+                self.probe("set_time_refused_different_value")
+                return
+            raise Violation("C05", "set_time", "raised", {"operation": op, "error": repr(out.exc)})
         if not matches(exp, r):
             raise Violation("C05", "set_time", "state",
                             {"operation": op, "expected": repr(key_state(exp)), "got": repr(key_state(state_of(r)))})
